@@ -196,7 +196,7 @@ Proof. exact twolevel_run. Qed.
 Print Assumptions C09_twolevel_passes.
 
 """
-mk('C09', ['MSTerm','OnlineFlags','Flags','RevConv','RevBridge4','RevolveRun'], [
+mk('C09', ['MSTerm','OnlineFlags','Flags','RevConv','RevBridge4','RevolveRun','PassRepeat','Online'], [
    lifted('C09_flags','Flags','C09_flags','FLAGS, all thirteen classes, every parameter tuple the constructor accepts, every history of next() / finalize(k) requests (ops), any executor parameters: before the first request is_exhausted = is_running = False; after every next() is_running = True; is_exhausted after a request = (the final action of the class has been yielded so far) -- final_action: EndForward for None, EndReverse for the offline classes and SingleDisk(move), none for SingleMemory, SingleDisk(copy), TwoLevel; no action is yielded once the final action has been seen (only StopIteration / an exception), and finalize never changes the flag. flags_hist is the trace rule, defined in Proofs/OnlineFlags.v'),
    C09_runs,
    lifted('C09_multistage_flags_on_runs','MultistageRun','multistage_flags','the same rule read on the raise-free Multistage runs of the run theorem (every line: is_running, and is_exhausted = (the action is EndReverse), StopIteration only with is_exhausted)'),
@@ -204,7 +204,9 @@ mk('C09', ['MSTerm','OnlineFlags','Flags','RevConv','RevBridge4','RevolveRun'], 
    lifted('C09_multistage_terminates','AllocTotal','multistage_terminates','the offline Multistage schedule concludes: EndReverse within 6 * TC N S + 1 requests'),
    lifted('C09_revolve_terminates','RevolveRun','revolve_terminates','the offline Revolve schedule concludes'),
    lifted('C09_mixed_terminates','MixBridge','mixed_terminates','the offline Mixed schedule concludes: exhausted within N (N + 3) + N + 2 requests'),
-   lifted('C09_multistage_terminates_partial','MSTerm','mu_decreases','PARTIAL: termination measure of the Multistage machine decreases at every yielded action (so the final action is reached); "each further pass is an exact repeat of the first" is covered by executability for every k above, the literal equality of passes by correspondence + oracle')])
+   lifted('C09_passes_repeat','PassRepeat','passes_repeat','EXACT REPEAT (SingleMemory, SingleDisk copy, TwoLevel): two loop-head states of the same object (r = 0, not exhausted, same class / pc / max_n; n and -- for TwoLevel -- the emptied snapshot list may differ) emit the same outcomes for ever (outs j = the outcomes of j requests)'),
+   lifted('C09_after_endreverse','PassRepeat','after_endreverse','... and the request that yields EndReverse of a non-exhausting object leaves it in such a loop head with the same class and max_n; the head reached by EndForward is of the same form (C09_*_passes give executability of every pass)'),
+   lifted('C09_multistage_measure','MSTerm','mu_decreases','(auxiliary) termination measure of the Multistage machine decreases at every yielded action')])
 mk('C10', ['BasicProofs'], [lifted('C10_online','BasicProofs','C10_online','online, not finalised: finalize(k) succeeds iff 1 <= k <= n, and then fixes max_n = n = k'),
    lifted('C10_known','BasicProofs','C10_known','max_n known: finalize(k) is a no-op iff k = max_n = n; state unchanged in every case'),
    lifted('C10_reject','BasicProofs','C10_reject','every other call: ValueError if k < 1 else RuntimeError, state unchanged'),
